@@ -93,6 +93,9 @@ def gen_case(rng, i):
             T.append(c0 + Mt @ lbv - np.abs(rng.normal(0.1, 0.1, m_)) * ext); cls.append("below-baseline")
         else:
             T.append(-np.abs(rng.normal(0.2, 0.2, m_)) * ext); cls.append("negative")
+    if i % 9 == 5:
+        # degenerate targets: exactly zero, exactly the (adapted) baseline - the latter is an all-zero row for the solver
+        T[int(rng.integers(N))] = [np.zeros(m_), c0.copy()][rng.integers(2)]
     B = np.clip(np.array(T), -100, 100)
     if i % 7 == 3:
         B = np.round(B)      # integer-valued targets (handed over as int64 by the harness); class labels become approximate
